@@ -21,7 +21,7 @@ func init() {
 		Level: "model_checking",
 		Rule: "applications with an end node at depth 0,1,2 of each kind (graceful with/without an own last value - also under an output size the final output does not fit -, abnormal before and after input handling and through a wildcard match, forced by an external TERMINATE request, CROAK) x client flag set earlier or not, x ALL input histories of length n over {1,0,junk} - long enough to pass the end and continue at least three requests beyond it - in persisted operation on the memory and filesystem backends (and long-lived up to the end); " +
 			"reference VM in lockstep: ending request delivers the final output and reports stop, afterwards no symbol in any cache scope and client flags kept, the next request re-enters the entry node and re-runs its LOADs; after abnormal/forced end every later request reports stop with empty output, zero instructions (hook count), no external call and unchanged stored position/flags; states = distinct (app, position, flags, cache) after each request; non-trivial = histories that continue past an end",
-		Assumptions: []string{"the page printed by the request that terminates abnormally is not constrained", "final output is accepted as page+last value (what the code does) or page alone (the documentation's 'instead')", "WithFirst variants are not part of this check"},
+		Assumptions: []string{"the page printed by the request that terminates abnormally is not constrained", "final output is accepted as page+last value (what the code does) or page alone (the documentation's 'instead')", "the first function of the WithFirst variant answers with empty content and no flags"},
 		Run:         c20Run,
 		Replay:      c20Replay,
 		MinItems:    100,
@@ -56,6 +56,8 @@ func c20App(sp c20Spec) *app.App {
 	end := map[string][]codec.Ins{
 		"G0": {{Op: codec.MOUT, Sym: "x", Sel: "1"}, {Op: codec.HALT}},
 		"G1": {{Op: codec.LOAD, Sym: "gv", N: 0}, {Op: codec.HALT}},
+		// G2: a silent leaf - empty template, no menu, and (see below) no loaded value: the final output is empty
+		"G2": {{Op: codec.HALT}},
 		"A0": {{Op: codec.MOUT, Sym: "x", Sel: "1"}},
 		"A1": {{Op: codec.HALT}, {Op: codec.INCMP, Sym: "zz", Sel: "1"}, {Op: codec.INCMP, Sym: "_", Sel: "0"}},
 		// A2: the dead end is reached through the wildcard (e.g. after a free-text input node)
@@ -66,15 +68,22 @@ func c20App(sp c20Spec) *app.App {
 	names := []string{"root", "m1", "m2"}
 	for d := 0; d <= sp.Depth; d++ {
 		var code []codec.Ins
-		if d == 0 {
+		if d == 0 && sp.Kind == "G2" {
+			if sp.Flag {
+				code = append(code, codec.Ins{Op: codec.LOAD, Sym: "sf9", N: 0})
+			}
+		} else if d == 0 {
 			code = append(code, codec.Ins{Op: codec.LOAD, Sym: "rv", N: 4}, codec.Ins{Op: codec.MAP, Sym: "rv"})
 			if sp.Flag {
 				code = append(code, codec.Ins{Op: codec.LOAD, Sym: "sf9", N: 0})
 			}
 		}
 		tpl := names[d]
-		if d == 0 {
+		if d == 0 && sp.Kind != "G2" {
 			tpl = "root {{.rv}}"
+		}
+		if d == sp.Depth && sp.Kind == "G2" {
+			tpl = ""
 		}
 		if d == sp.Depth {
 			code = append(code, end...)
@@ -122,18 +131,27 @@ func c20Run(c *mc.Ctx) {
 	for name := range extraBackends {
 		backends = append(backends, lsOpts{Mode: "persisted", Backend: name})
 	}
+	// engine.Config.ResetOnEmptyInput: the empty input restarts the session wherever it stands - also when
+	// it is blocked by TERMINATE (the engine's own reset clears the block); histories one shorter
+	backends = append(backends, lsOpts{Mode: "persisted", Backend: "mem", Cfg: engine.Config{ResetOnEmptyInput: true}})
+	// an engine with a first function (engine.WithFirst) that does nothing: ends and blocks are the same
+	backends = append(backends, lsOpts{Mode: "persisted", Backend: "mem", First: true})
 	for depth := 0; depth <= 2; depth++ {
-		for _, kind := range []string{"G0", "G1", "A0", "A1", "A2", "F0", "K0"} {
+		for _, kind := range []string{"G0", "G1", "G2", "A0", "A1", "A2", "F0", "K0"} {
 			for _, fl := range []bool{false, true} {
 				sp := c20Spec{depth, kind, fl}
 				a := c20App(sp)
 				for _, o := range backends {
-					for _, first := range a.Inputs {
+					inputs, n := a.Inputs, n
+					if o.Cfg.ResetOnEmptyInput {
+						inputs, n = append(append([]string{}, inputs...), ""), n-1
+					}
+					for _, first := range inputs {
 						if !c.Mine() {
 							continue
 						}
 						o := o
-						histories(a.Inputs, n-1, func(h []string) {
+						histories(inputs, n-1, func(h []string) {
 							h = append([]string{"", first}, h...)
 							pastEnd := false
 							ended := false
